@@ -457,6 +457,10 @@ pub fn check_step(before: &Snap, op: &Op, after: &Snap, clip_override: Option<([
             return Ok(st);
         }
         if !found.is_empty() {
+            // which buffer the call drew into (a layer behaves as a surface of its own: C06)
+            for f in found.iter_mut() {
+                f.detail.push_str(&format!("; open layers {}", nl));
+            }
             let first = found.remove(0);
             OTHERS.with(|o| *o.borrow_mut() = found);
             return Err(first);
@@ -470,16 +474,22 @@ pub fn check_step(before: &Snap, op: &Op, after: &Snap, clip_override: Option<([
             let l = before.layers.last().unwrap();
             // lower layers (except the new top) and, if the new top is a layer, the surface are untouched
             let nl = after.layers.len();
+            // a buffer other than the parent written: reported, but the parent's pixels are still
+            // judged (the group must arrive in the parent whatever else happened)
+            let mut wrong_buffer: Option<StepViolation> = None;
             if nl > 0 {
                 if let Some(d) = buf_diff("surface", &before.base, &after.base) {
-                    return Err(StepViolation { kind: Kind::WrongBuffer, clause: "pop_layer-nested-touched-surface".into(), detail: d });
+                    wrong_buffer = Some(StepViolation { kind: Kind::WrongBuffer, clause: "pop_layer-nested-touched-surface".into(), detail: d });
                 }
                 for i in 0..nl - 1 {
                     if let Some(d) = buf_diff(&format!("layer {}", i), &before.layers[i].px, &after.layers[i].px) {
-                        return Err(StepViolation { kind: Kind::WrongBuffer, clause: "pop_layer-touched-lower-layer".into(), detail: d });
+                        if wrong_buffer.is_none() {
+                            wrong_buffer = Some(StepViolation { kind: Kind::WrongBuffer, clause: "pop_layer-touched-lower-layer".into(), detail: d });
+                        }
                     }
                 }
             }
+            let pixels = (|| -> Result<(), StepViolation> {
             let (prect, pb): ([i32; 4], &[u32]) = if nl > 0 { (before.layers[nl - 1].rect, &before.layers[nl - 1].px[..]) } else { ([0, 0, w, h], &before.base[..]) };
             let (_, pa) = after.top();
             let (crect, cmask) = clip_override.unwrap_or_else(|| before.clip());
@@ -527,7 +537,17 @@ pub fn check_step(before: &Snap, op: &Op, after: &Snap, clip_override: Option<([
                     }
                 }
             }
-            Ok(st)
+            Ok(())
+            })();
+            match (wrong_buffer, pixels) {
+                (Some(w), Err(p)) => {
+                    OTHERS.with(|o| *o.borrow_mut() = vec![p]);
+                    Err(w)
+                }
+                (Some(w), Ok(())) => Err(w),
+                (None, Err(p)) => Err(p),
+                (None, Ok(())) => Ok(st),
+            }
         }
         Op::PushLayer(o, b) => {
             // all existing buffers unchanged; new layer is transparent and as large as the clip bounds
